@@ -424,6 +424,18 @@ def classify(case, layout, clause, variant):
     return ":".join(["xf", op, case["tgt"], clause] + opts)
 
 
+def _guard_one(c):
+    return guard(c["c"], c["e"])
+
+
+def guard_all(cases):
+    """Reference guard over EVERY enumerated case (not only the replayed sample): the TLA+ reference and pandas must agree
+    before anything is judged; a disagreement is a machinery error whatever the seed-dependent sample holds."""
+    for c, g in zip(cases, pmap(_guard_one, cases, chunk=64)):
+        if g is not None:
+            raise MachineryError("TLA+ reference disagrees with pandas on %r: %s" % (c["c"], g))
+
+
 def _work(item):
     case, exp, layout, variants = item
     g = guard(case, exp)
@@ -689,12 +701,31 @@ def variant_of_record(r):
     return {k: (int(v) if v.lstrip("-").isdigit() else v) for k, v in r["variant"].items()}
 
 
+def pandas_obs(case):
+    try:
+        with warnings.catch_warnings():
+            warnings.simplefilter("ignore")
+            r = apply_op(pandas_frame(case), case, None, False)
+    except Exception as ex:  # noqa: BLE001 - pandas raising is part of the reference behaviour
+        return {"raised": type(ex).__name__, "k": "", "gk": [], "cl": [], "v": [], "close": True}
+    return project(case, r)
+
+
+def guard_twin(rec):
+    return dict(rec, id="g" + rec["id"], obs=pandas_obs(case_of_record(rec)))
+
+
 def validate_records(ctx, recs, on_violation=None):
     spec, cfg = ctx.model(ctx.spec("frame", "GroupByTrace.tla"), {})
     nviol = 0
     for lo in range(0, len(recs), 3000):
         part = recs[lo:lo + 3000]
-        rej = ctx.tlc_validate(spec, part, cfg, timeout=1800)
+        twins = [guard_twin(r) for r in part]          # reference guard: what PANDAS returns for the same call, decided by the same run
+        rej = ctx.tlc_validate(spec, part + twins, cfg, timeout=1800)
+        ctx.traces -= len(twins)                       # (the twins are not traces of the implementation)
+        bad = [t for t in twins if t["id"] in rej]
+        if bad:
+            raise MachineryError("TLA+ reference rejects what pandas returns for a recorded call: %r %s" % (bad[0], rej[bad[0]["id"]]))
         byid = {r["id"]: r for r in part}
         for r in part:
             ctx.count(("rec", {k: v for k, v in r.items() if k not in ("obs", "id")}), r["obs"]["raised"] == "" and len(r["layout"]) >= 2)
@@ -722,6 +753,7 @@ def run(ctx):
     fills = make_fills(ctx)
     cases, layouts, _ = enumerate_cases(ctx, fills, designparts=ctx.pick(2, 3), ddofs=ctx.pick("{0, 1}", "{0, 1, 2}"),
                                         mincounts=ctx.pick("{0, 2}", "{0, 1, 3}"))
+    guard_all(cases)
     items, total_pairs, sampled = pair_items(ctx, cases, layouts, ctx.pick(2400, 30000), pre_quota=ctx.pick(900, 6000))
     replay_cases(ctx, items)
     nrec = ctx.pick(400, 4000)
